@@ -548,6 +548,23 @@ Proof.
     replace (- (1)) with (-1) by ring. ring.
 Qed.
 
+(* ------------------------------------------------------------------ histogramRestraint *)
+Definition hist_ok (sigma : R) (vs : list nat) (ws : list (@cvar R)) : Prop := sigma <> 0 /\ forall v, In v vs -> (v < length ws)%nat.
+
+Lemma hist_gauss_derive norm sigma xg x0 : sigma <> 0 ->
+  is_derive (fun x => hist_gauss Rops norm sigma xg x) x0 (hist_gauss Rops norm sigma xg x0 * ((xg - x0) / (sigma * sigma))).
+Proof.
+  intros Hs. unfold hist_gauss, mone, one, tw, ofnat. cbn [nmul nsub ndiv nneg nexp n1 nofZ Rops]. change (IZR (Z.of_nat 2)) with 2.
+  auto_derive; [exact I|].
+  replace (exp (- (1) * (xg + - x0) * (xg + - x0) * / (2 * sigma * sigma))) with (exp (- (1) * (xg - x0) * (xg - x0) / (2 * sigma * sigma)))
+    by (f_equal; field; exact Hs).
+  field. exact Hs.
+Qed.
+
+Lemma is_derive_minus_const (f : R -> R) x d r : is_derive f x d -> is_derive (fun t => f t - r) x d.
+Proof. intros H. evar_last; [apply @is_derive_minus; [exact H|apply @is_derive_const]|]. exact (Rminus_0_r d). Qed.
+
+
 (* ------------------------------------------------------------------ atom groups *)
 Definition rnat (n : nat) : R := IZR (Z.of_nat n).
 
@@ -2362,8 +2379,9 @@ Definition qn2 (q : Q4) : R := let '(q0, q1, q2, q3) := q in q0 * q0 + q1 * q1 +
 Definition sqdev (q : Q4) (prs : list (V3 * V3)) : R := tsum Rops (map (v3norm2 Rops) (rdev Rops q prs)).
 (* what rotation::calc_optimal_rotation has to deliver (C02_eigen_decomposition_is_optimal shows that the eigenvector of the
    largest eigenvalue of the overlap matrix does): a unit quaternion minimising the sum of squared deviations *)
-Definition qopt_ok (qopt : list (V3 * V3) -> Q4) : Prop :=
-  forall prs, qn2 (qopt prs) = 1 /\ forall q', qn2 q' = 1 -> sqdev (qopt prs) prs <= sqdev q' prs.
+Definition qopt_ok (ref : list V3) (qopt : list (V3 * V3) -> Q4) : Prop :=
+  forall Y, let prs := combine Y (centred Rops ref) in
+            qn2 (qopt prs) = 1 /\ forall q', qn2 q' = 1 -> sqdev (qopt prs) prs <= sqdev q' prs.
 
 (* Fermat / envelope: a differentiable function that lies below a differentiable one and touches it has the same derivative *)
 Lemma envelope (F G : R -> R) t0 d : ex_derive F t0 -> (forall t, F t <= G t) -> F t0 = G t0 -> is_derive G t0 d -> is_derive F t0 d.
@@ -2473,7 +2491,7 @@ Proof.
   rewrite IH, qrot_adj, v3dot_scale_l. ring.
 Qed.
 
-Lemma dir_correct_rmsd ref qopt (gs : list GD) : length gs = 1%nat -> qopt_ok qopt ->
+Lemma dir_correct_rmsd ref qopt (gs : list GD) : length gs = 1%nat -> qopt_ok ref qopt ->
   gd_pos (gnth gs 0) <> [] -> length ref = length (gd_pos (gnth gs 0)) ->
   fst (k_rmsd Rops ref qopt gs) <> 0 ->
   (* the minimum rmsd is differentiable along straight atomic displacements (non-degenerate optimal rotation) *)
@@ -2535,7 +2553,7 @@ Proof.
     apply (envelope (fun t => fst (k_rmsd Rops ref qopt (move_gs gs t Ds))) G 0).
     + apply Hdiff.
     + intros t. rewrite EF, EG. apply sqrt_le_1_alt. apply Rmult_le_compat_r; [apply Rlt_le, Rinv_0_lt_compat; exact Hn|].
-      destruct (Hopt (combine (move_pos Y t E) Rf)) as [_ Hmin]. apply Hmin. unfold q0. apply (Hopt (combine Y Rf)).
+      destruct (Hopt (move_pos Y t E)) as [_ Hmin]. apply Hmin. unfold q0. apply (Hopt Y).
     + rewrite EF, EG. rewrite move_pos_zero. reflexivity.
     + evar_last; [exact HG|]. rewrite <- ERE. field. split; lra.
 Qed.
@@ -2690,7 +2708,7 @@ Qed.
    the exact gradient (the rotation derivative cancels by optimality). *)
 Definition plain_group (ids : list nat) : GRP := GAtoms ids None None false.
 Lemma cvc_grad_correct_rmsd cell co e ref qopt ids (s : SYS) :
-  ids_ok s ids -> ids <> [] -> length ref = length ids -> qopt_ok qopt ->
+  ids_ok s ids -> ids <> [] -> length ref = length ids -> qopt_ok ref qopt ->
   cvc_value Rops PI cell (mkCvc co e (KRmsd ref qopt) [plain_group ids]) s <> 0 ->
   (forall Ds, ex_derive (fun t => fst (k_rmsd Rops ref qopt (move_gs [gdata_of Rops s (plain_group ids)] t Ds))) 0) ->
   cvc_grad_correct cell (mkCvc co e (KRmsd ref qopt) [plain_group ids]) s.
@@ -2800,15 +2818,17 @@ Definition bias_guard (b : bias) (ws : list cvar) (x0 : list R) : Prop :=
   | BWalls k lk uk hl hu l => terms_ok fst l ws /\ walls_guard hl hu l x0
   | BMeta hs => forall h, In h hs -> hill_ok ws x0 h                         (* no hill exactly at its truncation radius *)
   | BAbmd k dec v ref => (v < length ws)%nat /\ abmd_diff Rops dec (xat Rops x0 v) ref <> 0   (* not exactly at the reference *)
+  | BHist k norm sigma grid vs => False        (* modelled and tied; force correctness not proved yet *)
   end.
 Lemma bias_guard_ok b ws x0 : bias_guard b ws x0 -> bias_force_correct b ws x0.
 Proof.
-  destruct b as [k cs|k lk uk hl hu l|k cs|hs|k dec v ref]; cbn [bias_guard].
+  destruct b as [k cs|k lk uk hl hu l|k cs|hs|k dec v ref|k norm sigma grid vs]; cbn [bias_guard].
   - apply bias_force_correct_harmonic_gen.
   - intros [H1 H2]. apply bias_force_correct_walls; assumption.
   - apply bias_force_correct_linear.
   - apply bias_force_correct_meta.
   - intros [H1 H2]. apply bias_force_correct_abmd; assumption.
+  - contradiction.
 Qed.
 
 Lemma forces_nth (cf : config) (s : SYS) a : (a < length s)%nat ->
@@ -2922,4 +2942,32 @@ Proof.
     + intros x [<-|[]]. exact Hj.
     + intros x [<-|[]]. exact Hj.
     + rewrite tsum_cons, tsum_nil. intros H. apply Mj. lra.
+Qed.
+
+(* qopt_ok is inhabited: with an all-zero reference every unit quaternion is optimal (rotations preserve norms) *)
+Lemma qrot_norm2 (q : Q4) (v : V3) : v3norm2 Rops (qrot Rops q v) = qn2 q * qn2 q * v3norm2 Rops v.
+Proof.
+  destruct q as [[[q0 q1] q2] q3], v as [[x y] z].
+  unfold qrot, qn2, v3norm2, v3dot, tw, ofnat. cbn [nadd nsub nmul nofZ Rops]. change (IZR (Z.of_nat 2)) with 2. ring.
+Qed.
+Lemma sqdev_zero_ref (q : Q4) (Y Z : list V3) : (forall r, In r Z -> r = vzero Rops) ->
+  sqdev q (combine Y Z) = qn2 q * qn2 q * tsum Rops (map (fun yr => v3norm2 Rops (fst yr)) (combine Y Z)).
+Proof.
+  unfold sqdev, rdev. revert Z. induction Y as [|y Y IH]; intros Z HZ; destruct Z as [|r Z']; cbn [combine map]; rewrite ?tsum_nil; try ring.
+  rewrite !tsum_cons, IH by (intros r0 Hr; apply HZ; right; exact Hr). cbn [fst snd].
+  rewrite (HZ r (or_introl eq_refl)).
+  replace (v3sub Rops (qrot Rops q y) (vzero Rops)) with (qrot Rops q y) by (apply v3_ext; intros j; rewrite vget_sub, vget_zero; ring).
+  rewrite qrot_norm2. ring.
+Qed.
+Lemma ex_qopt : qopt_ok [vzero Rops; vzero Rops; vzero Rops] (fun _ => (1, 0, 0, 0)).
+Proof.
+  intros Y prs.
+  assert (HZ : forall r, In r (centred Rops [vzero Rops; vzero Rops; vzero Rops]) -> r = vzero Rops).
+  { intros r Hr. unfold centred in Hr. cbn [map length] in Hr.
+    assert (E : v3sub Rops (vzero Rops) (vdiv Rops (vsum Rops [vzero Rops; vzero Rops; vzero Rops]) (ofnat Rops 3)) = vzero Rops).
+    { apply v3_ext. intros j. rewrite vget_sub, vget_div, vget_vsum. cbn [map]. rewrite !tsum_cons, tsum_nil, !vget_zero.
+      unfold ofnat. cbn [nofZ Rops]. change (IZR (Z.of_nat 3)) with 3. field. }
+    rewrite E in Hr. destruct Hr as [<-|[<-|[<-|[]]]]; reflexivity. }
+  split; [cbn; ring|]. intros q' Hq'. unfold prs. rewrite !sqdev_zero_ref by exact HZ. rewrite Hq'. cbn [qn2]. 
+  replace (1 * 1 + 0 * 0 + 0 * 0 + 0 * 0) with 1 by ring. lra.
 Qed.
